@@ -19,6 +19,11 @@ def gen_world_desc(rng, nlooms=(1, 2), ncpus=(1, 4), nprocs=(1, 2), nthreads=(1,
     nl = rng.randint(*nlooms)
     # swarm: a few worlds are much bigger than usual (many threads per process, many CPUs, many looms)
     crowd = rng.chance(4)
+    if rng.chance(1):
+        # more than 64 threads in one trace
+        crowd = True
+        nprocs = (max(nprocs[0], 2), max(nprocs[1], 4))
+        nthreads = (16, 32)
     if crowd:
         nthreads = (nthreads[0], max(nthreads[1], rng.choice([6, 12, 24])))
         ncpus = (ncpus[0], max(ncpus[1], rng.choice([8, 16, 40])))
@@ -43,6 +48,10 @@ def gen_world_desc(rng, nlooms=(1, 2), ncpus=(1, 4), nprocs=(1, 2), nthreads=(1,
                 used_ids.add(x)
                 return x
     names = ["node%d.%d" % (rng.below(4), i) for i in range(nl)]
+    if rng.chance(30):
+        # names whose order is sensitive to how they are compared: '-' sorts before '.', case matters, prefixes
+        pool = ["mn.1", "mn-ib.1", "mn1.Ab", "mn1.aB", "MN.1", "mn.10", "mn.2", "m.n", "mn", "mn-", "mn.1.x", "Mn.1", "n0de.0", "node.00"]
+        names = rng.sample(pool, nl)
     allprocs = []
     for li in range(nl):
         nc = rng.randint(*ncpus)
@@ -74,6 +83,24 @@ def gen_world_desc(rng, nlooms=(1, 2), ncpus=(1, 4), nprocs=(1, 2), nthreads=(1,
             for l in rng.sample(looms, rng.randint(1, nl - 1)):
                 for p in l["procs"]:
                     p["rank"] = p["nranks"] = None
+    if nl > 1 and rng.chance(25):
+        # TIDs and PIDs are only unique per node: reuse the identifiers of the first loom in the others
+        base = looms[0]
+        for l in looms[1:]:
+            for pi, p in enumerate(l["procs"]):
+                if pi < len(base["procs"]) and rng.chance(70):
+                    bp = base["procs"][pi]
+                    p["pid"] = bp["pid"]
+                    for ti in range(min(len(p["threads"]), len(bp["threads"]))):
+                        p["threads"][ti] = bp["threads"][ti]
+                    # keep TIDs unique inside the loom
+                    seen = set()
+                    for pp in l["procs"]:
+                        for ti, t in enumerate(pp["threads"]):
+                            while t in seen:
+                                t += 100000
+                            pp["threads"][ti] = t
+                            seen.add(t)
     if skews and nl > 1:
         # one clock per host (looms whose names share the part before the first dot share the host)
         hosts = sorted({n.split(".")[0] for n in names})
@@ -455,6 +482,8 @@ class Gen:
                 # a fresh body id, or a created one
                 nb = len(task.bodies) + 1
                 if nb <= 3:
+                    if self.k.get("big_ids"):
+                        nb = [2 ** 32 - 1, 2 ** 31, 2 ** 31 + 7][nb - 1]
                     out.append((task, nb))
             else:
                 b = task.bodies.get(1)
